@@ -181,6 +181,34 @@ pub fn gen_scene(r: &mut Rng, q: &Joints) -> SceneSpec {
             }
         }
     }
+    // directed family: an environment object a few micrometres from a link, the pair guarded by a safety distance of a
+    // few micrometres more (a tiny positive distance is a distance, not "touch only")
+    let mut env = env;
+    if env_len > 0 && r.chance(0.12) {
+        let e = r.below(env_len);
+        let li = r.below(6);
+        let l32 = links.map(|p| iso32(&p));
+        let gap = r.range(2e-6, 5e-6) as f32;
+        let mut ok = false;
+        for _ in 0..6 {
+            let cp = parry3d::query::closest_points(&l32[li], &joint_meshes[li], &env[e].pose, &env[e].mesh, 10.0).unwrap();
+            if let parry3d::query::ClosestPoints::WithinMargin(p1, p2) = cp {
+                let d = (p1 - p2).norm();
+                if d < 1e-7 { break; }
+                let step = (p1 - p2) / d * (d - gap);
+                env[e].pose = Isometry3::from_parts(Translation3::from(env[e].pose.translation.vector + step), env[e].pose.rotation);
+                let now = parry3d::query::distance(&l32[li], &joint_meshes[li], &env[e].pose, &env[e].mesh).unwrap();
+                if now > 1e-6 && now < 6e-6 && !parry3d::query::intersection_test(&l32[li], &joint_meshes[li], &env[e].pose, &env[e].mesh).unwrap() { ok = true; break; }
+            } else { break; }
+        }
+        if ok {
+            let guard = *r.pick(&[8e-6f32, 9.5e-6, 7e-6]);
+            safety.special_distances.remove(&((ENV_START_IDX + e) as u16, li as u16));
+            if r.chance(0.7) { safety.special_distances.insert((li as u16, (ENV_START_IDX + e) as u16), guard); }
+            else { safety.special_distances.remove(&(li as u16, (ENV_START_IDX + e) as u16)); safety.to_environment = guard; }
+            fam.push_str("/micro-gap");
+        }
+    }
     SceneSpec { ks, body: RobotBody { joint_meshes, tool, base, collision_environment: env, safety }, fam }
 }
 
@@ -204,29 +232,50 @@ fn placed<'a>(body: &'a RobotBody, links: &[Isometry3<f32>; 6]) -> Vec<(usize, &
     v
 }
 
+/// the safety distance of a pair as documented (exact key, reversed key, environment default, robot default): the
+/// oracle does not ask the library
+pub fn pair_distance(s: &SafetyDistances, a: usize, b: usize) -> f32 {
+    if let Some(v) = s.special_distances.get(&(a as u16, b as u16)) { return *v; }
+    if let Some(v) = s.special_distances.get(&(b as u16, a as u16)) { return *v; }
+    if a >= ENV_START_IDX || b >= ENV_START_IDX { s.to_environment } else { s.to_robot_default }
+}
+
 /// oracle table by direct parry3d calls on every unordered pair of bodies:
-/// `#n (a b intersects distance nearOwn nearOther)*`
-pub fn enc_table(l: &mut Line, body: &RobotBody, kin: &dyn Kinematics, q: &Joints, other: &SafetyDistances) {
+/// `#n (a b intersects distance nearOwn nearOther)*`.  The distance query is run with the two bodies in either order
+/// (the library uses one of them): where the two answers fall on different sides of a safety distance, or within 1e-4 of it
+/// (relative), the distance is written as exactly that safety distance, which the driver reads as "on the threshold, do
+/// not care".  Returns false when both tables are on their threshold at different distances (the case is skipped).
+pub fn enc_table(l: &mut Line, body: &RobotBody, kin: &dyn Kinematics, q: &Joints, other: &SafetyDistances) -> bool {
     let links = kin.forward_with_joint_poses(q).map(|p| p.cast::<f32>());
     let bodies = placed(body, &links);
     let mut rows = vec![];
+    let mut reliable = true;
     for x in 0..bodies.len() {
         for y in (x + 1)..bodies.len() {
             let (a, sa, pa) = &bodies[x]; let (b, sb, pb) = &bodies[y];
             let inter = parry3d::query::intersection_test(pa, *sa, pb, *sb).unwrap();
-            let dist = parry3d::query::distance(pa, *sa, pb, *sb).unwrap();
+            let d_ab = parry3d::query::distance(pa, *sa, pb, *sb).unwrap();
+            let d_ba = parry3d::query::distance(pb, *sb, pa, *sa).unwrap();
             let near = |r: f32| -> bool {
                 if !(r > 0.0) { return false; } // the code only loosens by positive distances
                 let (sm, smp, bg, bgp) = if sa.vertices().len() < sb.vertices().len() { (*sa, pa, *sb, pb) } else { (*sb, pb, *sa, pa) };
                 sm.aabb(smp).loosened(r).intersects(&bg.aabb(bgp))
             };
-            let r_own = *body.safety.min_distance(*a as u16, *b as u16);
-            let r_oth = *other.min_distance(*a as u16, *b as u16);
+            let r_own = pair_distance(&body.safety, *a, *b);
+            let r_oth = pair_distance(other, *a, *b);
+            let unsure = |r: f32| r > 0.0 && ((d_ab <= r) != (d_ba <= r) || (d_ab - r).abs() <= 1e-4 * r || (d_ba - r).abs() <= 1e-4 * r);
+            let dist = match (unsure(r_own), unsure(r_oth)) {
+                (true, true) if r_own != r_oth => { reliable = false; d_ab }
+                (true, _) => r_own,
+                (_, true) => r_oth,
+                _ => d_ab,
+            };
             rows.push((*a, *b, inter, dist, near(r_own), near(r_oth)));
         }
     }
     l.n(rows.len());
     for (a, b, i, d, n1, n2) in rows { l.n(a).n(b).b(i).f(d as f64).b(n1).b(n2); }
+    reliable
 }
 
 fn enc_pairs(l: &mut Line, v: &[(usize, usize)]) { l.n(v.len()); for (a, b) in v { l.n(*a).n(*b); } }
@@ -260,16 +309,20 @@ pub fn coll_cases(prop: &str, r: &mut Rng, n: usize) {
             if r.chance(0.2) { other.to_robot_default = NEVER_COLLIDES; }
             if r.chance(0.1) { other.to_environment = NEVER_COLLIDES; }
         }
-        for pool in [1usize, 2, 4, 16] {
-            let mut l = Line::new(prop, &sc.fam, "coll");
+        // the same body behind the `KinematicsWithShape` facade: its collides / collision_details / near are the body's
+        let kws = KinematicsWithShape { kinematics: kin.clone(), body: sc.body };
+        for (pool, via) in [(1usize, false), (2, false), (2, true), (4, false), (16, false)] {
+            let fam = if via { format!("{}/via-wrapper", sc.fam) } else { sc.fam.clone() };
+            let mut l = Line::new(prop, &fam, "coll");
             sc.ks.encode(&mut l);
-            l.j6(&q).b(sc.body.tool.is_some()).b(sc.body.base.is_some()).n(sc.body.collision_environment.len());
-            enc_safety(&mut l, &sc.body.safety);
+            l.j6(&q).b(kws.body.tool.is_some()).b(kws.body.base.is_some()).n(kws.body.collision_environment.len());
+            enc_safety(&mut l, &kws.body.safety);
             enc_safety(&mut l, &other);
-            enc_table(&mut l, &sc.body, kin.as_ref(), &q, &other);
+            if !enc_table(&mut l, &kws.body, kin.as_ref(), &q, &other) { continue; }
             l.n(pool).arrow();
             let out = catch(AssertUnwindSafe(|| in_pool(pool, || {
-                (sc.body.collision_details(&q, kin.as_ref()), sc.body.collides(&q, kin.as_ref()), sc.body.near(&q, kin.as_ref(), &other))
+                if via { (kws.collision_details(&q), kws.collides(&q), kws.near(&q, &other)) }
+                else { (kws.body.collision_details(&q, kin.as_ref()), kws.body.collides(&q, kin.as_ref()), kws.body.near(&q, kin.as_ref(), &other)) }
             })));
             match out {
                 Some((d, c, nr)) => { enc_pairs(&mut l, &d); l.b(c); enc_pairs(&mut l, &nr); }
@@ -313,6 +366,12 @@ pub fn c14(seed: u64, n: usize) {
             if r.chance(0.3) { let k = r.below(6); f[k] = q[k] + 0.05; t[k] = q[k] + 1.0; }
             sc.ks.cons = Some((f, t, 0.0));
         }
+        // the kinematics handed over may be any wrapper stack: a frame / tool on top still reports the robot's limits
+        if r.chance(0.3) {
+            let iso = rand_iso(&mut r, 0.2);
+            sc.ks.stack.push(if r.chance(0.6) { Wrap::F(iso) } else { Wrap::T(iso) });
+            sc.fam.push_str("/wrapped-kinematics");
+        }
         let kin = sc.ks.build();
         // the property quantifies over collision-free initial vectors
         if sc.body.collides(&q, kin.as_ref()) { continue; }
@@ -331,18 +390,29 @@ pub fn c14(seed: u64, n: usize) {
         for k in 0..6 { for tgt in [&from, &to] { let mut c = q; c[k] = tgt[k]; cands.push(c); } }
         l.n(cands.len());
         let initial_links = kin.forward_with_joint_poses(&q);
+        let mut reliable = true;
         for c in &cands {
             let compliant = kin.constraints().as_ref().map_or(true, |cc| cc.compliant(c));
             l.j6(c).b(compliant).b(sc.body.collides(c, kin.as_ref()));
             // which links keep the pose they have at the initial vector
             let lp = kin.forward_with_joint_poses(c);
             for i in 0..6 { l.b(lp[i] == initial_links[i]); }
-            enc_table(&mut l, &sc.body, kin.as_ref(), c, &sc.body.safety);
+            reliable &= enc_table(&mut l, &sc.body, kin.as_ref(), c, &sc.body.safety);
         }
+        if !reliable { continue; }
         l.n(pool).arrow();
+        let head = l.0.clone();
         match catch(AssertUnwindSafe(|| in_pool(pool, || sc.body.non_colliding_offsets(&q, &from, &to, kin.as_ref())))) {
             Some(v) => { l.sols(&v); } None => { l.s("panic"); } }
         l.emit();
+        // the same question through the `KinematicsWithShape` facade
+        if done % 3 == 0 {
+            let kws = KinematicsWithShape { kinematics: kin.clone(), body: sc.body };
+            let mut l2 = Line(head.replacen(&sc.fam, &format!("{}/via-wrapper", sc.fam), 1));
+            match catch(AssertUnwindSafe(|| in_pool(pool, || kws.non_colliding_offsets(&q, &from, &to)))) {
+                Some(v) => { l2.sols(&v); } None => { l2.s("panic"); } }
+            l2.emit();
+        }
     }
 }
 
@@ -472,7 +542,8 @@ pub fn kws_cases(prop: &str, r: &mut Rng, n: usize, entries: &[usize], with_kwsd
         // previous taken bit for bit from the answers of the inner stack, preferably one the robot reports colliding
         if r.chance(0.35) {
             let answers = inner.inverse_continuing(&pose, &prev);
-            if let Some(s) = answers.iter().find(|s| k.kws.collides(s)).or(answers.first()) { prev = *s; }
+            let colliding = catch(AssertUnwindSafe(|| answers.iter().find(|s| k.kws.collides(s)).cloned())).flatten();
+            if let Some(s) = colliding.or(answers.first().cloned()) { prev = s; }
         }
         let j6 = q[5];
         for &entry in entries {
